@@ -396,6 +396,8 @@ func (x *Exec) newRef(hint string) *Term {
 		x.vc.Assume(Not(App("=", SBool, r, h)))
 	}
 	x.allocs = append(x.allocs, r)
+	x.eng.DeclareUF("embtag", SInt, SInt)
+	x.vc.Assume(Eq(App("embtag", SInt, r), IntLit(0)))
 	return r
 }
 
